@@ -210,6 +210,17 @@ Theorem dev_server_looks_up_clean_names_unchanged : forall (f : str), wf_rel f -
 Proof. exact serve_lookup_clean. Qed.
 Print Assumptions dev_server_looks_up_clean_names_unchanged.
 
+(* Conversely: every file collectstatic copies is served by the dev server under its own relative name, from the same
+   location - provided no location holds a DIRECTORY of that name (find would return the directory of an earlier location:
+   the dev server then answers 404; same behaviour as Django's FileSystemFinder; counted in the evidence). *)
+Theorem dev_server_serves_collected_unless_shadowed : forall (c : config) (locs : list location) (r f : str),
+  (forall l, In l locs -> resolved_dir (loc_root l)) -> wf_rel f ->
+  (forall l, In l locs -> loc_present l = true -> ~ In f (dirs (loc_tree l))) ->
+  In (r, f) (collected c locs) ->
+  serve c locs f = SFile (r ++ SLASH :: f).
+Proof. exact serve_collected. Qed.
+Print Assumptions dev_server_serves_collected_unless_shadowed.
+
 (* Defaults, several directories: nothing returned by find / find(all=True) / the dev server, listed, or collected ends in
    a backend suffix (also when followed by a final newline). *)
 Theorem default_settings_never_expose_backend_code_all :
